@@ -299,6 +299,7 @@ impl Table {
                 ingredient: ingredient.as_u32(),
                 page: page.0,
             });
+            crate::verif_life::emit(|| format!("ppush {} {}", page.0, ingredient.as_u32()));
             return page;
         }
         #[cfg(not(salsa_rs_salsa_verif))]
